@@ -26,7 +26,7 @@ RULE = (
     'slices sharing their buffer (getitem followed by a write into one side); the identity power. Rounds 7-8: '
     'level operands under the other prefix; number types of magnitude and unit factor in the snapshot; read-only '
     'queries after the operation; follow-ups toq (target quantity only read) and peek (answer overwritten, asked '
-    'again); equal but separately built quantities. Distinct = distinct case JSON.'
+    'again); equal but separately built quantities. Round 10: two quantities built from one Magnitude object (every unit form of the constructor), then an in-place call on one. Distinct = distinct case JSON.'
 )
 ASSUMPTIONS = [
     "the snapshot holds the number types of the magnitude and of the unit factor as well: a float operand that comes back as "
